@@ -228,6 +228,25 @@ pub fn run(ctx: &Ctx) -> Report {
         let v = judge(&t);
         st.record(&v, stable_hash(&t), true, || case_json(&t));
     }
+    // long command lines: an unsupported construct after 100..300 supported clauses must still be refused
+    for n in [100usize, 128, 129, 130, 255, 256, 257, 300] {
+        for (unsup, name) in [("-ls", "List"), ("-regex x", "Regex"), ("-printf '%p %M\\n'", "PermissionsSymbolic"), ("-fls f", "FileList")] {
+            for op in [" ", " -a ", " -o "] {
+                let text = format!("{}{op}{unsup}", (0..n).map(|i| format!("-uid {i}")).collect::<Vec<_>>().join(op));
+                let v = match catch(|| lipe_find_parser::parse(&text)) {
+                    Ok(Ok((o, x))) => match catch(|| lipe_find_parser::compile(&x, &o).map(|c| c.scheme("/"))) {
+                        Ok(Err(e)) if e.to_string().contains(name) => Verdict::Pass { nt: true, class: "refused, error names the construct" },
+                        Ok(Err(e)) => Verdict::Fail(format!("{n} clauses then {unsup}: the error does not name {name}: {e}")),
+                        Ok(Ok(_)) => Verdict::Fail(format!("{n} supported clauses joined by {op:?} then {unsup}: compiled although {name} cannot be expressed")),
+                        Err(p) => Verdict::Fail(format!("compile panicked: {p}")),
+                    },
+                    Ok(Err(e)) => Verdict::Fail(format!("{n} clauses then {unsup}: rejected by parse: {e}")),
+                    Err(p) => Verdict::Fail(format!("parse panicked: {p}")),
+                };
+                st.record(&v, stable_hash(&text), true, || json!({"kind": "long-text", "clauses": n, "unsupported": unsup, "operator": op}));
+            }
+        }
+    }
     for u in &singles {
         let shapes = vec![
             u.clone(),
